@@ -399,6 +399,9 @@ def run(c, chk):
         ncomm += 1
         if not closed:
             chk.fail('R3.5', 'comment-close:%r' % body, 'src/lexer.l:<comment>', 'comment body %r is not closed exactly at its "*/"' % body)
+    badc = c_comment_extent(lex, K)
+    if badc:
+        chk.fail('R3.5', 'comment-extent', 'src/lexer.l', 'the C comment %r is not read as one comment ending at its first "*/": %s' % badc)
     chk.ok('R3.5', 'comment forms', '%d comment shapes/rules: only the comment token (8) is ever returned, with the trimmed buffer' % ncomm, sample=True)
     # no rule in any condition returns a STR token from comment text: rules returning 3
     str_rules = sorted(r for r in lex.actions if any(x.startswith('return(3') or x.startswith('env->return(3') for x in K.get(r, [])))
@@ -476,3 +479,41 @@ def subst_action_ok(lex, r, scname):
         if vals != {'value', 'default', 'empty'}:
             return 'token value outcomes are %s, expected value/default/empty' % sorted(vals)
     return True
+
+
+def c_comment_extent(lex, K, maxlen=3):
+    """(text, what happens) for the first C comment "/*" body "*/" (body over a small alphabet, without "*/") that the
+    scanner does not read as exactly one comment token ending at the first "*/" after the opening "/*"; None if all do"""
+    import itertools
+    dfa = lex.dfa
+    csc = dfa.sc['comment']
+    for n in range(0, maxlen + 1):
+        for tup in itertools.product(b'*/a \n', repeat=n):
+            body = bytes(tup)
+            # the first "*/" that ends the comment: the opening star does not count twice ("/*/" is still open)
+            whole = b'/*' + body + b'*/'
+            end = whole.find(b'*/', 2)
+            want = end + 2
+            text = whole + b' x'
+            r, ln = dfa.match('INITIAL', text)
+            k = K.get(r, [])
+            if len(k) > 1:
+                k = lexmodel.classes_for(lex, r, text[:ln])
+            if not (k == ['begin%d' % csc]):
+                return (whole, 'it opens with %s (%s)' % (lex.rule_name(r), k))
+            pos = ln
+            steps = 0
+            closed = None
+            while pos < len(text) and steps < 40:
+                r, ln = dfa.match('comment', text[pos:])
+                steps += 1
+                kk = K.get(r, [])
+                if any(x.startswith('return(8') for x in kk):
+                    closed = pos + ln
+                    break
+                if ln <= 0:
+                    break
+                pos += ln
+            if closed != want:
+                return (whole, 'the comment token is returned after %s byte(s) instead of %d' % (closed if closed is not None else 'no', want))
+    return None
